@@ -360,6 +360,7 @@ pub fn execute(pl: &Plan) -> RunOut {
   bump(&mut counters, "fault:step-split", pl.replicas.iter().filter(|r| r.steps.len() > 1).count() as u64);
   bump(&mut counters, "fault:profile-knob", pl.replicas.iter().filter(|r| r.profile).count() as u64);
   bump(&mut counters, "fault:trace-knob", pl.replicas.iter().filter(|r| r.trace).count() as u64);
+  if pl.max_steps.is_some() { bump(&mut counters, "fault:low-transition-budget-knob", 1); }
   if state_changed_by_steps { bump(&mut counters, "reach:runs-where-steps-changed-state", 1); }
   sets.insert("programs".into(), vec![pl.program_name.clone()]);
   let max_total = total.iter().copied().max().unwrap_or(0);
